@@ -301,7 +301,7 @@ theorem commit_step_block_arrival_decides (c : Cfg) (s : NodeState) (r b : Nat)
 theorem signAddVote_mock (c : Cfg) (s : NodeState) (t : VType) (b : Bid) (me : Nat)
     (hh : s.halted = false) (hs : c.checkHRS = false) (hme : c.self = some me) :
     signAddVote c s t b =
-      { s with out := s.out ++ [.signVote t s.round b], queue := s.queue ++ [.vote ⟨t, s.round, b, me, true⟩] } := by
+      { s with out := s.out ++ [.signVote t s.round b], queue := s.queue ++ [.vote ⟨t, s.round, b, me, true, me, me⟩] } := by
   unfold signAddVote sign
   simp [hh, hs, hme, emit]
 
